@@ -374,6 +374,12 @@ func chooseFunctionCalculator(parameters []*variants.Variant,
 	}
 	paramIndex := int(condition.AsInteger())
 
+	if paramIndex < 1 {
+		err := errors.NewExpressionError("", "WRONG_PARAM_VALUE",
+			"Expected a choice index starting from 1 but was found "+strconv.Itoa(paramIndex), 0, 0)
+		return nil, err
+	}
+
 	if paramCount < paramIndex+1 {
 		err := errors.NewExpressionError("", "WRONG_PARAM_COUNT",
 			"Expected at least "+strconv.Itoa(paramIndex+1)+" parameters", 0, 0)
